@@ -99,6 +99,9 @@ func newSweepStat() *sweepStat {
 	return &sweepStat{count: map[string]int64{}, failX: map[string]uint64{}, failed: map[string]bool{}, failMsg: map[string]string{}}
 }
 
+// fullChunk: tensor length of the complete float32 sweep (odd, no multiple of 4 or 8).
+const fullChunk = 1<<20 + 3
+
 // sweepChunk pushes one chunk of raw bit patterns through the real operator and compares every element.
 func sweepChunk(op string, dt ref.DT, bits []uint64, st *sweepStat, tolUlps int) {
 	f := ref.UnaryF[op]
@@ -196,16 +199,21 @@ func checkC10(c *hx.Checker) {
 			k := sweepKey{op, dt}
 			stats[k] = newSweepStat()
 			vals := ref.StructuredFloats(dt)
-			for i := 0; i < len(vals); i += 4096 {
-				j := i + 4096
+			// chunk lengths are odd and no multiple of 4 or 8 (a kernel that splits its work into blocks and drops
+			// the remainder shows); the whole alphabet additionally goes through as one tensor
+			for i := 0; i < len(vals); i += 4099 {
+				j := i + 4099
 				if j > len(vals) {
 					j = len(vals)
 				}
 				chunks = append(chunks, chunk{k: k, bits: vals[i:j]})
 			}
+			chunks = append(chunks, chunk{k: k, bits: vals})
+			if len(vals) > 70001 {
+				chunks = append(chunks, chunk{k: k, bits: vals[:32771]}, chunk{k: k, bits: vals[len(vals)-65539:]})
+			}
 			if thorough && dt == ref.F32 {
-				const cs = 1 << 20
-				for lo := uint64(0); lo < 1<<32; lo += cs {
+				for lo := uint64(0); lo < 1<<32; lo += fullChunk {
 					chunks = append(chunks, chunk{k: k, lo: lo, full: true})
 				}
 			}
@@ -217,7 +225,11 @@ func checkC10(c *hx.Checker) {
 		ch := chunks[i]
 		bits := ch.bits
 		if ch.full {
-			bits = make([]uint64, 1<<20)
+			n := uint64(fullChunk)
+			if ch.lo+n > 1<<32 {
+				n = 1<<32 - ch.lo
+			}
+			bits = make([]uint64, n)
 			for j := range bits {
 				bits[j] = ch.lo + uint64(j)
 			}
@@ -357,6 +369,24 @@ func checkC10(c *hx.Checker) {
 			x, sl := &ref.T{DT: dt, Shape: []int{n * n}, V: xa}, &ref.T{DT: dt, Shape: []int{n * n}, V: sa}
 			exp, err := ref.PRelu(x, sl)
 			jobs = append(jobs, newJob("PRelu", nil, []*ref.T{x, sl}, []*ref.T{exp}, err, hx.DCompute, hx.Bits, "op", nil, "special-values", "special-values"))
+		}
+	}
+	// PRelu on larger tensors with odd element counts (block-splitting kernels), slope of the same shape and broadcast
+	for _, n := range []int{1025, 4099, 32771, 65539} {
+		for _, dt := range []ref.DT{ref.F32, ref.F64, ref.I32} {
+			for _, ssh := range [][]int{{n}, {1}, {3, n}} {
+				xsh := []int{n}
+				if len(ssh) == 2 {
+					xsh = []int{3, n}
+				}
+				x := ref.Fill(dt, xsh, func(i int) float64 { return float64((i*7+3)%23) - 11 })
+				sl := ref.Fill(dt, ssh, func(i int) float64 { return float64((i*5+1)%7) - 3 })
+				if dt.IsFloat() {
+					sl = ref.Fill(dt, ssh, func(i int) float64 { return float64((i*5+1)%7)*0.25 - 0.75 })
+				}
+				exp, err := ref.PRelu(x, sl)
+				jobs = append(jobs, newJob("PRelu", nil, []*ref.T{x, sl}, []*ref.T{exp}, err, hx.DCompute, hx.Bits, "op", nil, fmt.Sprintf("large slope%v", ssh), "large"))
+			}
 		}
 	}
 	runOpJobs(c, jobs)
